@@ -401,7 +401,15 @@ class Generator:
     def _emit_fn(self, cmd, rest, cont, g):
         pos, opts = self._opts(rest)
         rel, path = pos[0], pos[1]
-        it = self.find(rel, path)
+        try:
+            it = self.find(rel, path)
+        except AnchorLost:
+            if opts.get("optional"):
+                # the function was introduced by a repair; on a tree without it the callers' contracts
+                # (which do not mention it) decide, so its absence is not an anchor loss
+                g.lines.append("// (optional item %s absent from %s)" % (path, rel))
+                return
+            raise
         if it.kind != "fn":
             raise AnchorLost("%s in %s is not a fn" % (path, rel))
         sf = self.source(rel)
